@@ -11,8 +11,9 @@ import (
 //
 // case:        (period (op ...))     op = (0 es) AddElementaryStream  (1 pid) RemoveElementaryStream  (2 pid) SetPCRPID
 //                                         (3) WriteTables  (4 muxerdata) WriteData  (5 packet) WritePacket
-// observation: per call (code n bytes state): code -1 ok / error code / -2 panic; n the returned int; bytes what the
-//              writer accepted during the call; state = VerifState() after the call (see coq/Extract/RunMux.v).
+// observation: per call (code n bytes state writes): code -1 ok / error code / -2 panic; n the returned int; bytes what the
+//              writer accepted during the call; state = VerifState() after the call (see coq/Extract/RunMux.v); writes = the
+//              length of every io.Writer.Write call of the call, in order (the structure C18 injects failures into).
 
 const (
 	opAdd = iota
@@ -87,6 +88,7 @@ type muxCall struct {
 	n     int
 	bytes []byte
 	st    astits.VerifMuxerState
+	lens  []int // length of every io.Writer.Write call made during the call
 }
 
 // runMux runs a history on a fresh Muxer writing into a sinkWriter that never fails.
@@ -96,6 +98,7 @@ func runMux(period int, ops []muxOp) []muxCall {
 	calls := make([]muxCall, 0, len(ops))
 	for _, o := range ops {
 		before := len(w.accepted)
+		callsBefore := len(w.lens)
 		c := muxCall{}
 		func() {
 			defer func() {
@@ -121,6 +124,7 @@ func runMux(period int, ops []muxOp) []muxCall {
 			c.code = errCode(err)
 		}()
 		c.bytes = append([]byte{}, w.accepted[before:]...)
+		c.lens = append([]int{}, w.lens[callsBefore:]...)
 		c.st = m.VerifState()
 		calls = append(calls, c)
 	}
@@ -151,7 +155,7 @@ func muxStateTok(s astits.VerifMuxerState) Tok {
 func muxObservation(calls []muxCall) Tok {
 	ts := make([]Tok, len(calls))
 	for i, c := range calls {
-		ts[i] = L(I(c.code), I(int64(c.n)), B(c.bytes), muxStateTok(c.st))
+		ts[i] = L(I(c.code), I(int64(c.n)), B(c.bytes), muxStateTok(c.st), intsTok(c.lens))
 	}
 	return L(ts...)
 }
@@ -430,6 +434,80 @@ func (g *muxGen) setPCR(valid bool) {
 
 func (g *muxGen) tables() { g.ops = append(g.ops, muxOp{kind: opTables}) }
 
+func (g *muxGen) drop(pid uint16) {
+	g.ops = append(g.ops, muxOp{kind: opRemove, pid: pid})
+	for i, p := range g.pids {
+		if p == pid {
+			g.pids = append(g.pids[:i:i], g.pids[i+1:]...)
+			break
+		}
+	}
+}
+
+// reAdd: data on a PID, removal, the same PID added again (explicitly, or by automatic assignment when it is the one
+// nextPID stands on), data again: the continuity counter carries on.
+func (g *muxGen) reAdd() {
+	r := g.r
+	var pid uint16
+	auto := false
+	if !g.has(g.next) && g.next != 0x1000 && r.Bool() {
+		// an explicit stream on the PID automatic assignment will hand out next
+		pid, auto = g.next, true
+		g.ops = append(g.ops, muxOp{kind: opAdd, es: g.stream(pid, 10)})
+		g.pids = append(g.pids, pid)
+	} else if p, ok := g.anyPID(); ok {
+		pid = p
+	} else {
+		g.addExplicit(10)
+		pid = g.pids[0]
+	}
+	for i := r.Range(1, 3); i > 0; i-- {
+		g.data(pid, nil, r.Range(1, 900))
+	}
+	g.drop(pid)
+	if r.Chance(1, 3) {
+		g.data(pid, nil, r.Range(1, 300)) // rejected: the PID is gone
+	}
+	if r.Chance(1, 3) {
+		if q, ok := g.anyPID(); ok {
+			g.data(q, nil, r.Range(1, 300))
+		}
+	}
+	if auto && g.next == pid {
+		g.addAuto(10)
+	} else {
+		g.ops = append(g.ops, muxOp{kind: opAdd, es: g.stream(pid, 10)})
+		g.pids = append(g.pids, pid)
+	}
+	if !g.has(g.pcr) {
+		g.setPCR(true)
+	}
+	for i := r.Range(1, 3); i > 0; i-- {
+		g.data(pid, nil, r.Range(1, 900))
+	}
+}
+
+// muxReAddHistory: several remove / add-again rounds on a few PIDs.
+func muxReAddHistory(r *Rng, tier string) (int, []muxOp) {
+	g := newMuxGen(r, tier)
+	period := r.Range(1, 20)
+	for i := r.Range(1, 3); i > 0; i-- {
+		if r.Bool() {
+			g.addExplicit(10)
+		} else {
+			g.addAuto(10)
+		}
+	}
+	g.setPCR(true)
+	for i := r.Range(2, 6); i > 0; i-- {
+		g.reAdd()
+		if r.Chance(1, 4) {
+			g.tables()
+		}
+	}
+	return period, g.ops
+}
+
 // muxPayloadSize draws from {1, 2, k*184-d, 65520..65560, random}.
 func (g *muxGen) payloadSize() int {
 	r := g.r
@@ -629,6 +707,8 @@ func muxHistory(r *Rng, tier string, n int) (int, []muxOp) {
 			g.addAuto(30)
 		case k < 80:
 			g.addDuplicate()
+		case k < 83:
+			g.reAdd()
 		case k < 86:
 			g.remove(r.Chance(4, 5))
 		case k < 93:
@@ -955,10 +1035,10 @@ func muxExhaustive(r *Rng, length int, emit func(string, Tok)) {
 
 // muxGenAll is the generator mix shared by the three properties; the weights differ per property.
 type muxMix struct {
-	random, wrap, bigPMT, many, ood int
-	maxLen                          int
-	exhaustive                      int
-	sweep                           int // automatic additions of the nextPID sweep (0: none)
+	random, wrap, bigPMT, many, ood, readd int
+	maxLen                                 int
+	exhaustive                             int
+	sweep                                  int // automatic additions of the nextPID sweep (0: none)
 }
 
 func muxGenAll(r *Rng, tier string, m muxMix, emit func(string, Tok)) {
@@ -992,6 +1072,10 @@ func muxGenAll(r *Rng, tier string, m muxMix, emit func(string, Tok)) {
 		}
 		p, ops := muxPMTBody(r, tier, target)
 		emit("pmt-body-overflow", muxCaseTok(p, ops))
+	}
+	for i := 0; i < m.readd; i++ {
+		p, ops := muxReAddHistory(r, tier)
+		emit("remove-add-again", muxCaseTok(p, ops))
 	}
 	for i := 0; i < m.many; i++ {
 		p, ops := muxManyPackets(r, tier)
